@@ -162,7 +162,8 @@ func nonNilIsAny(err error, matches []error) bool {
 			return false
 		}
 		err = more[len(more)-1]
-		more = more[:len(more)-1]
+		// keep the capacity limit, such that append (above) copies
+		more = more[: len(more)-1 : len(more)-1]
 	}
 }
 
